@@ -572,6 +572,15 @@ func main() {
 	}
 	core.VerifSetEvictionInterval(time.Minute)
 	poolLifetime = 1000 * time.Hour
+
+	// 4. concurrent readers of Pending()/Content()/Stats() against writers (every view handed out is judged)
+	nr, per := 3, 1500
+	if run.Thorough() {
+		nr, per = 8, 2500
+	}
+	for i := 0; i < nr; i++ {
+		readerStress(run, rng.Fork(uint64(2000000+i)), per)
+	}
 	run.Notes["accounts"] = nAccounts
 	run.Finish()
 }
